@@ -70,11 +70,13 @@ class Stats:
         self.excluded = collections.Counter()
         self.worst = {}
         self.errors = []
+        self.units = 0
 
     def record(self, mod, case, max_samples=3):
         from .common import case_hash, dumps
         res = evaluate(mod, case)
         self.evaluations += 1
+        self.units += int(getattr(res, 'units', 1))
         if res.discarded:
             self.discarded += 1
         for k in res.excluded:
@@ -105,10 +107,11 @@ class Stats:
     def export(self):
         return dict(evaluations=self.evaluations, nontrivial=self.nontrivial, hist=self.hist,
                     samples=self.samples, buckets=self.buckets, discarded=self.discarded,
-                    excluded=self.excluded, worst=self.worst)
+                    excluded=self.excluded, worst=self.worst, units=self.units)
 
     def merge(self, d):
         self.evaluations += d["evaluations"]
+        self.units += d.get("units", 0)
         self.nontrivial |= d["nontrivial"]
         self.hist.update(d["hist"])
         for s in d["samples"]:
@@ -421,6 +424,7 @@ def main(argv=None):
             rule=mod.RULE,
             samples=jsonable(total.samples[:4]) or jsonable([{"note": "no non-trivial case generated"}]),
             generated=int(total.evaluations),
+            elementary_evaluations=int(total.units),
             replays_regress=replay_info["regress"], replays_known=replay_info["known"],
             histogram={k: int(v) for k, v in sorted(total.hist.items())},
             discarded=int(total.discarded),
